@@ -40,3 +40,29 @@ Example C27_example :
   match run p [("acc", VAccount "a")] {| st_bal := []; st_meta := [(("a", "fee"), VPortion (1#4))] |} with
   | Ok r => map pamt (all_postings r) | _ => [] end = [3].
 Proof. vm_compute. reflexivity. Qed.
+
+(* ---------- the bytecode layer (Machine/Vm.v, Compile.v, CompileCorrect.v) ----------
+   Vm.v is the machine of vm/machine.go with Panic wherever Go panics (typed pop on another type, stack underflow,
+   BUMP index out of range, OP_SAVE default, nil amounts, "stack not empty after execution"); Compile.v is the compiler
+   (gen: instructions whose APUSH operand is a resource description; assign: addresses into the resource table).
+   The tie `nsbc` checks on every run that Compile.v emits byte-for-byte the program of the real compiler.Compile
+   (instructions, resources, needed balances) and that Vm.v on the REAL bytecode yields the real machine's result.
+   Proved here, for EVERY checked program (all statement forms: sends with account / world / overdraft / max / in-order /
+   allotment sources, account / max-remaining / allotment / kept destinations, send-all, save, metadata) in the
+   environment of a run: executing the emitted instruction stream, APUSH operands read by their denotation, never
+   panics, and the stack is empty at the end.  Not yet a theorem: that the concrete resource table resolved by
+   ResolveResources/ResolveBalances holds those denotations at the assigned addresses (address assignment `assign`,
+   vm_resolve): covered by the tie only. *)
+From LV Require Import Machine.EnvProofs Machine.Vm Machine.Compile Machine.CompileCorrect.
+Theorem C27_vm_no_panic_code : forall p te e b0,
+  chk_vars [] (pvars p) = Some te -> Forall (fun s => chk_stmt te s = true) (pstmts p) -> cons_env te e -> env_valid e ->
+  exec (sym_look e) (code (sp_events (gen p))) (vm_init b0) <> Panic /\
+  forall st, exec (sym_look e) (code (sp_events (gen p))) (vm_init b0) = Ok st -> vstk st = [] /\ finish st = Ok st.
+Proof. exact code_no_panic. Qed.
+Print Assumptions C27_vm_no_panic_code.
+
+(* one tick per instruction always suffices (no jumps: P strictly increases) *)
+Theorem C27_vm_fuel : forall (O : Type) (look : O -> option vval) is fuel st, (List.length is <= fuel)%nat ->
+  exec_fuel look fuel is st = Some (exec look is st).
+Proof. intros O look. exact (fuel_sufficient look). Qed.
+Print Assumptions C27_vm_fuel.
